@@ -73,16 +73,21 @@ pub fn all(values: &[Value]) -> Value {
   if values.is_empty() {
     return VALUE_TRUE;
   }
+  let mut all_boolean = true;
   for value in values {
     if let Value::Boolean(v) = value {
       if !v {
         return VALUE_FALSE;
       }
     } else {
-      return value_null!();
+      all_boolean = false;
     }
   }
-  VALUE_TRUE
+  if all_boolean {
+    VALUE_TRUE
+  } else {
+    value_null!()
+  }
 }
 
 /// Returns `true` if any item is `true`, `false` if empty or all items are `false`, else `null`.
